@@ -27,7 +27,9 @@ Definition unpack21 (i : int) : list N :=
 Definition P21 (l : list int) : list N := flat_map unpack21 l.
 
 (* one value: length + every charCodeAt; Export() bytes; and whether the value was interchangeable (===, Map key,
-   object key, hash, both directions) with a fresh literal spelled with the same code units *)
+   object key, hash, both directions) with a fresh literal spelled with the same code units — checked on a freshly
+   evaluated copy with the dictionary lookups first (before anything scanned it) and again after the scan — and
+   whether a Set/Map still finds the value under itself after its length was read *)
 Record sobs := mkS { o_units : list N; o_export : list N; o_lit : bool }.
 
 (* a pair *)
@@ -41,7 +43,12 @@ Record pobs := mkP {
   p_map : bool;      (* new Map([[a,1]]).get(b) === 1 *)
   p_map_rev : bool;  (* new Map([[b,1]]).get(a) === 1 *)
   p_obj : bool;      (* ({[a]:1})[b] === 1 *)
-  p_hash : bool      (* VerifHashEq(a, b) *)
+  p_hash : bool;     (* VerifHashEq(a, b) *)
+  (* the same dictionary observations, each made FIRST on freshly evaluated (e.g. still unscanned imported) values *)
+  p_fmap : bool;     (* fresh: new Map([[a,1]]).get(b) === 1 *)
+  p_fmap_rev : bool; (* fresh: new Map([[b,1]]).get(a) === 1 *)
+  p_fset : bool;     (* fresh: new Set([a,b]).size === 1 *)
+  p_fhash : bool     (* fresh: VerifHashEq(a, b) *)
 }.
 
 Record tcase := mkCase { c_a : expr; c_b : expr; c_oa : sobs; c_ob : sobs; c_p : pobs; c_ok : bool }.
@@ -61,7 +68,8 @@ Definition s_pair (c : tcase) : bool :=
   Bool.eqb (p_seq p) eqv && Bool.eqb (p_seq_rev p) eqv && Bool.eqb (p_eq2 p) eqv && Bool.eqb (p_is p) eqv
   && Bool.eqb (p_lt p) (is_lt cmp) && Bool.eqb (p_gt p) (is_gt cmp)
   && Bool.eqb (p_map p) eqv && Bool.eqb (p_map_rev p) eqv && Bool.eqb (p_obj p) eqv
-  && implb eqv (p_hash p).
+  && implb eqv (p_hash p)
+  && Bool.eqb (p_fmap p) eqv && Bool.eqb (p_fmap_rev p) eqv && Bool.eqb (p_fset p) eqv && implb eqv (p_fhash p).
 
 Definition s_agrees (c : tcase) : bool :=
   c_ok c && s_single (c_a c) (c_oa c) && s_single (c_b c) (c_ob c) && s_pair c.
@@ -76,7 +84,7 @@ Definition s_agrees_noexp (c : tcase) : bool :=
 Definition i_lit_ok (x : jsstr) : bool :=
   let l := from_utf16 (payload (devirt x)) in
   strict_equals x l && strict_equals l x && map_hit x l && map_hit l x && objkey_hit x l && objkey_hit l x
-  && list_eqb (hash_bytes x) (hash_bytes l).
+  && list_eqb (hash_bytes x) (hash_bytes l) && map_hit x x.
 
 Definition i_single (e : expr) (o : sobs) : bool :=
   let x := ieval e in
@@ -90,7 +98,9 @@ Definition i_pair (c : tcase) : bool :=
   && Bool.eqb (p_lt p) (is_lt (compare_to a b)) && Bool.eqb (p_gt p) (is_lt (compare_to b a))
   && Bool.eqb (p_map p) (map_hit a b) && Bool.eqb (p_map_rev p) (map_hit b a)
   && Bool.eqb (p_obj p) (objkey_hit a b)
-  && Bool.eqb (p_hash p) (list_eqb (hash_bytes a) (hash_bytes b)).
+  && Bool.eqb (p_hash p) (list_eqb (hash_bytes a) (hash_bytes b))
+  && Bool.eqb (p_fmap p) (map_hit a b) && Bool.eqb (p_fmap_rev p) (map_hit b a) && Bool.eqb (p_fset p) (map_hit a b)
+  && Bool.eqb (p_fhash p) (list_eqb (hash_bytes a) (hash_bytes b)).
 
 Definition i_agrees (c : tcase) : bool :=
   c_ok c && i_single (c_a c) (c_oa c) && i_single (c_b c) (c_ob c) && i_pair c.
